@@ -403,6 +403,15 @@ def _run_c09(prop, spec, tier):
 
 PROPS["C09"] = {"engine": "smt", "level": "other", "run": _run_c09}
 
+def _run_c17(prop, spec, tier):
+    import sys as _sys
+    _sys.path.insert(0, os.path.join(os.path.dirname(os.path.dirname(os.path.abspath(__file__))), "c17"))
+    import c17
+    return c17.main(prop, tier)
+
+
+PROPS["C17"] = {"engine": "cbmc-c", "level": "translation_validation", "run": _run_c17}
+
 # <<SPECS-END>>
 
 from props_text import MANIFEST_TEXT, NOT_YET  # noqa: E402
